@@ -57,7 +57,14 @@ pub fn end_case() {
 
 pub fn install(hang_file: String) {
     std::thread::spawn(move || loop {
+        let before = Instant::now();
         std::thread::sleep(Duration::from_millis(500));
+        if before.elapsed() > Duration::from_secs(3) {
+            // the whole sandbox was stopped or its clocks jumped (snapshot, migration): both wall
+            // and CPU clocks of the running case are meaningless across that - start it afresh
+            heartbeat();
+            continue;
+        }
         let (spin, blocked) = *LIMITS.lock().unwrap();
         let guard = CURRENT.lock().unwrap();
         let Some(c) = guard.as_ref() else { continue };
